@@ -102,10 +102,12 @@ PLANS["C10"] = {
 }
 PLANS["C12"] = {
     "props": ["C12"], "ops": ["sm", "rm"],
-    "mc": [mc("C12", geoms("GSmall", "GSmall"), ports({"api": 1, "chars": 1}, {"api": 1, "chars": 2, "bytes": 5}), modemax={"quick": 40, "thorough": 9999})],
+    "mc": [mc("C12", geoms("GSmall", "GSmall"), ports({"api": 1, "chars": 1}, {"api": 1, "chars": 2, "bytes": 5}), modemax={"quick": 40, "thorough": 9999}),
+           mc("C12", geoms("GColm", "GColm"), ports({"api": 1, "chars": 2}, {"api": 1, "chars": 1}), modemax={"quick": 8, "thorough": 8})],
     "gen": [gen("star", 12, 300, focus="C12", steps=40, every=6, per=24), walk("C12", 160, 4000), walk("C12", 80, 2000, port="chars")],
     "rule": "MC: SM/RM of every mode number 0..40 and {96,160,192,224,800,1049,2004,9999} x {private, ANSI}, and mode lists, from "
-            "seven representative states (region, DECOM, DECSCNM, DECCOLM, coloured rendition)",
+            "seven representative states (region, DECOM, DECSCNM, DECCOLM, coloured rendition); the same with modes 0..8 on screens of "
+            "132, 133 and 200 columns (DECCOLM from a screen that is already as wide or wider)",
 }
 PLANS["C13"] = {
     "props": ["C13"], "ops": ["ich", "dch"],
@@ -233,7 +235,7 @@ PLANS["C03"] = {
            mcrec("oscx", {"quick": 2, "thorough": 3}, True, ports({"chars": 2}, {"chars": 1, "bytes": 3})),
            mcrec("pairs", 1, True, ports({"chars": 1, "chars1": 2, "bytes": 3}, {"chars": 1, "chars1": 1, "bytes": 1, "bytes1": 2})),
            mcrec("pairs", 1, False, ports({"chars": 1}, {"chars": 1, "chars1": 2, "bytes": 2})),
-           {"module": "MCRecAbs", "model": "rec-class-sweep", "kind": "rec",
+           {"module": "MCRecAbs", "model": "rec-class-sweep", "kind": "rec", "constants": {"OscOnly": "FALSE"},
             "invariants": ["ClassAbstractionSound", "Accounted", "Emit"], "ports": ports({"chars": 1, "bytes": 5}, {"chars": 1, "bytes": 2, "chars1": 7}), "workers": 4}],
     "gen": [gen("recsoup", 600, 20000, chars=60), gen("recsoup", 200, 6000, chars=200), walk("", 100, 3000, port="chars"),
             walk("", 60, 2000, port="chars", utf8=0)],
@@ -247,7 +249,9 @@ PLANS["C19"] = {
     "mc": [mcrec("oscx", {"quick": 2, "thorough": 4}, True, ports({"chars": 1, "bytes": 2, "bytes1": 5}, {"chars": 1, "chars1": 3, "bytes": 2, "bytes1": 7})),
            mcrec("oscx", {"quick": 1, "thorough": 3}, False, ports({"chars": 1}, {"chars": 1, "bytes": 3})),
            mcrec("osc", 1, True, ports({"chars": 1, "chars1": 2, "bytes": 1, "bytes1": 3}, {"chars": 1, "chars1": 1, "bytes": 1, "bytes1": 1})),
-           mcrec("osc", 1, False, ports({"chars": 1}, {"chars": 1, "chars1": 1}))],
+           mcrec("osc", 1, False, ports({"chars": 1}, {"chars": 1, "chars1": 1})),
+           {"module": "MCRecAbs", "model": "osc-class-sweep", "kind": "rec", "constants": {"OscOnly": "TRUE"},
+            "invariants": ["ClassAbstractionSound", "Accounted", "Emit"], "ports": ports({"chars": 1, "bytes": 3}, {"chars": 1, "bytes": 2, "chars1": 5}), "workers": 4}],
     "gen": [gen("recsoup", 400, 12000, chars=60), gen("recsoup", 200, 6000, chars=60, port="bytes"), walk("C19", 120, 3000, port="chars"),
             walk("C19", 60, 1500, port="bytes"), walk("C19", 60, 1500)],
     "rule": "OSC strings with codes 0-3, 9, a; payloads over letters ; \\ ] space non-ASCII C0; terminators BEL, U+009C, ESC \; both "
